@@ -656,11 +656,16 @@ def _run(report, execs, obs, ndispatch):
     report.function("symplyphysics.core.dimensions.collect_expression._collect_derivative", src, note="bounded only (executable contract)")
     from ..contracts import refimpl
     budget = 20000 if report.tier == "thorough" else 3000
-    t, why, n = refimpl.search_collect_expression(seed(), budget, 2)
+    listed = {}
+    t, why, n = refimpl.search_collect_expression(seed(), budget, 2, known=listed)
     fails = [] if t is None else [{"name": f"{UNIT}/audit/collect_expression/first-disagreement", "detail": f"{t}: {why}", "signature": str(t),
                                    "replay": {"reproduced": True, "script": f"from vf.contracts.refimpl import replay_tree\nreplay_tree('collect_expression', {seed()}, {n})\n"}}]
+    # disagreements with a recognised root cause are reported under that cause (one entry each; known_findings.json may list it) and the search goes on
+    for cause, (kt, kwhy, kn) in listed.items():
+        fails.append({"name": f"{UNIT}/audit/collect_expression/disagreement-with-cause:{cause}", "detail": f"{kt}: {kwhy}", "signature": cause,
+                      "replay": {"reproduced": True, "script": f"from vf.contracts.refimpl import replay_tree\nreplay_tree('collect_expression', {seed()}, {kn})\n"}})
     report.add_bounded("executable C06 contract (dimension by combining declared leaf dimensions, error classes, VALUE-EQUAL returned expression at a random valuation) "
-                       "vs the real collect_expression_and_dimension on enumerated real trees", f"all trees of depth <= 2 over 23 leaves, first {budget} in a seeded order", n, t is None, fails)
+                       "vs the real collect_expression_and_dimension on enumerated real trees", f"all trees of depth <= 2 over 25 leaves, first {budget} in a seeded order", n, not fails, fails)
     diagram_bounded(report)
     report.extra["dispatch_table_entries"] = ndispatch
     report.add_out_of_reach("value-equality of the returned expression and the quantity-substitution diagram as for-all proofs",
